@@ -165,9 +165,11 @@ func (h *H[T]) C11(rc *runCtx) *Violation {
 	}
 
 	pas := make([]signal.PoolAllocator[T], len(as))
-	for i := range as {
-		pas[i] = signal.PoolAlloc[T](as[i])
-	}
+	sim.Setup(func() { // (every library call is made by a simulated task)
+		for i := range as {
+			pas[i] = signal.PoolAlloc[T](as[i])
+		}
+	})
 	states := make([]*taskState, g)
 	// Per-task counters are task-local and summed after the join, so that
 	// the harness itself shares nothing between tasks.
